@@ -132,18 +132,20 @@ class HarnessGen:
     def __init__(self, lw, fn, spec, ghosts, K=6):
         self.lw, self.fn, self.spec, self.ghosts, self.K = lw, fn, spec, ghosts, K
         self.inputs = []   # [(in_name, ctype string)]
+        self.paths = {}
         self.lines = []
 
-    def new_input(self, t):
+    def new_input(self, t, path='?'):
         nm = 'in_%d' % len(self.inputs)
         self.inputs.append((nm, t.cast()))
+        self.paths[nm] = path
         return nm
 
     def fill(self, path, t):
         acc = []
         leaves(self.lw, path, t, acc)
         for p, lt in acc:
-            nm = self.new_input(lt)
+            nm = self.new_input(lt, p)
             self.lines.append('  QX_INPUT(%s, %s); %s = %s;' % (lt.cast(), nm, p, nm))
 
     def build(self):
@@ -156,7 +158,7 @@ class HarnessGen:
             if '[' in g:
                 continue
             ct = self.lw.ctype(t) if not isinstance(t, CType) else t
-            nm = self.new_input(ct)
+            nm = self.new_input(ct, 'ghost ' + g)
             L.append('  QX_INPUT(%s, %s); %s = %s;' % (ct.cast(), nm, g, nm))
         args = []
         later = []
@@ -182,7 +184,7 @@ class HarnessGen:
             L.append('  __CPROVER_assume((%s) <= %d);' % (cnt, self.K))
             L.append('  %s = malloc(((__CPROVER_size_t)(%s)) * sizeof(%s));' % (t.decl(nm, keep_const=False), cnt, et.cast()))
             for i in range(self.K):
-                inm = self.new_input(et)
+                inm = self.new_input(et, '%s[%d]' % (nm, i))
                 L.append('  QX_INPUT(%s, %s); if (%d < (%s)) ((%s *)%s)[%d] = %s;' % (et.cast(), inm, i, cnt, et.cast(), nm, i, inm))
         for s in spec.get('harness_setup', []):
             L.append('  ' + s)
